@@ -2,10 +2,12 @@
 # tools/runall.sh [tier] : every check once, summary line per check
 cd "$(dirname "$0")/.." || exit 2
 tier=${1:-quick}
+bad=0
 for c in C01 C02 C03 C04 C05 C06 C07 C08 C09 C10 C11 C12 C13 C14 C15 C16 C17 C18 C19 C20; do
   s=$(date +%s)
   out=$(./check $c --tier $tier 2>&1); rc=$?
   e=$(date +%s)
   echo "$c rc=$rc $((e-s))s $(echo "$out" | grep -E "^C[0-9]+ tier" | sed 's/evidence=.*//' | cut -c1-160)"
-  [ $rc -ne 0 ] && echo "$out" | grep -v "^C[0-9]* tier" | head -5
+  if [ $rc -ne 0 ]; then bad=1; echo "$out" | grep -v "^C[0-9]* tier" | head -5; fi
 done
+exit $bad
